@@ -259,6 +259,10 @@ func genUniverse(r *rand.Rand, g *grpSpec, nk int) {
 		}
 	}
 	add(base)
+	switch g.Kind {
+	case kInt, kInt64, kUInt64, kUInt:
+		add(lo) // always there: the key whose hash is the smallest int (Int64(MinInt64), UInt64(1<<63)): defect 21
+	}
 	for tries := 0; len(g.Univ) < nk && tries < 200; tries++ {
 		switch r.Intn(9) {
 		case 0:
